@@ -13,10 +13,10 @@ Definition maprange_classified : list (bytes * bytes * bytes) := [
   (b#"GetHashMap", b#"hashMap", b#"deletes every key of a pooled map: the result is the empty map in any order");
   (b#"contains", b#"c", b#"existential test: returns true as soon as some key matches, false after all; no other effect");
   (b#"contains", b#"rv", b#"existential test over MapKeys: true iff some key matches");
-  (b#"CoreExtension.filterMerge", b#"rv", b#"copies every entry into a fresh map: the resulting map does not depend on the order (model dt_merge_filter, lemma dt_put_all_indep)");
-  (b#"CoreExtension.filterMerge", b#"argRv", b#"stores every entry of the argument into the result map, keys of one map are pairwise different (model dt_merge_filter, lemma dt_put_all_indep)");
+  (b#"CoreExtension.filterMerge", b#"rv", b#"ORDER SENSITIVE when two keys of the map have the same string form: every entry is stored under mapKeyString of its key in the order of MapKeys(); modelled with the oracle behind the flag dt_merge_filter_unsorted, independent when the string forms are pairwise different (dt_put_all_str_indep), refuted otherwise by C03_merge_filter_collision_refuted, class merge-filter-key-collision");
+  (b#"CoreExtension.filterMerge", b#"argRv", b#"as rv, for every map among the arguments");
   (b#"CoreExtension.functionMerge", b#"baseMap", b#"copies a map[string]interface{} into a fresh map: order immaterial (model dt_merge_function)");
-  (b#"CoreExtension.functionMerge", b#"baseRv", b#"stores every entry under the string form of its key: order immaterial when the string forms are pairwise different (dt_put_all_str_indep); otherwise refuted by C03_merge_function_collision_refuted, class key-string-collision");
+  (b#"CoreExtension.functionMerge", b#"baseRv", b#"(no longer in the tree: the function iterates sortedMapKeys) stores every entry under the string form of its key");
   (b#"CoreExtension.functionMerge", b#"argMap", b#"stores every entry of a map[string]interface{} into the result: order immaterial");
   (b#"CoreExtension.functionMerge", b#"argRv", b#"as baseRv");
   (b#"getMapKeys", b#"m", b#"unused debugging helper; no caller in the package");
@@ -41,7 +41,7 @@ Definition maprange_classified : list (bytes * bytes * bytes) := [
   (b#"RenderContext.Clone", b#"newCtx.parentBlocks", b#"clears a pooled map");
   (b#"RenderContext.Clone", b#"ctx.blocks", b#"copies a map into a map under the same keys");
   (b#"RenderContext.Clone", b#"ctx.macros", b#"copies a map into a map under the same keys");
-  (b#"RenderContext.EvaluateExpression", b#"n.items", b#"ORDER SENSITIVE when two keys of a hash literal have the same text: modelled with the oracle (dt_hash_build), independent under dt_eok (distinct literal keys), refuted otherwise by C03_hash_duplicate_key_refuted, class hash-duplicate-key");
+  (b#"RenderContext.EvaluateExpression", b#"n.items", b#"(no longer in the tree: hashKeyOrder gives the source order) ORDER SENSITIVE when two keys of a hash literal have the same text: modelled with the oracle behind the flag dt_hash_ranges_go_map, independent under dt_eok (distinct literal keys), refuted otherwise by C03_hash_map_order_refuted");
   (b#"RenderContext.contains", b#"tempMap", b#"existential test over a set built from a slice: true iff some element equals the item");
   (b#"RenderContext.contains", b#"rv", b#"existential test over MapKeys: true iff some key equals the item");
   (b#"Engine.GetCachedTemplateNames", b#"e.templates", b#"API result outside rendering; the cache checks compare it as a set (C15)");
@@ -51,9 +51,9 @@ Definition maprange_classified : list (bytes * bytes * bytes) := [
   (b#"Engine.AddExtension", b#"extension.GetOperators()", b#"registers every entry under its own name")
 ].
 
-(* sites that may appear once the proposed repairs are applied (notes/proposed-fixes/C03-*.patch): classified in advance *)
+(* sites that came with the repairs 0b86a90 / 4c440c3 or come with notes/proposed-fixes/C03-*.patch *)
 Definition maprange_classified_after_repair : list (bytes * bytes * bytes) := [
-  (b#"sortedMapKeys", b#"val", b#"sorted in the same function by string form and, after the repair, by type name on ties");
+  (b#"sortedMapKeys", b#"val", b#"sorted in the same function by string form and by type name on ties");
   (b#"hashKeyOrder", b#"n.items", b#"fallback for hash nodes built without a source order (NewHashNode, no caller in the package): keys as the map yields them; the parser always records the source order")
 ].
 
